@@ -1,3 +1,4 @@
 import PbProofs.FastLen
 import PbProofs.FastLenPrev
 import PbProofs.Crop
+import PbProofs.Freq
